@@ -9,6 +9,10 @@ from . import fmtfeat
 from .c01 import check_checksum_gate
 
 RULES = {
+    "C11.5": "a leftover temporary file cannot leak into the cursor / marker files the next open parses: both persist routines produce the file with fs::write (create + truncate) on "
+             "the temporary path, sync it and rename that very file over the target. A temporary that is opened without truncation keeps the tail of a longer leftover "
+             "`*_index.db.tmp`; the loaders find the archive root from the END of the file, so the next open decodes the stale tail (abort on garbage, bogus cursors on a stale but "
+             "well-formed tail)",
     "C11.1": "no unchecked deserialisation of disk bytes (WMC): rkyv::archived_root::<T> (unsafe, unvalidated) must not be applied to bytes that originate from a file read; "
              "rkyv::check_archived_root is the accepted idiom (the crate enables rkyv's validation feature)",
     "C11.2": "panic freedom of the open path (PF): every Assert terminator, unwrap/expect, indexing/slicing and allocation-by-length in the call-graph closure of Walrus::with_paths is "
@@ -435,6 +439,10 @@ def run(ctx):
             o["rule"] = "C11.4"
             if "key" in o:
                 o["key"] = o["key"].replace("C01.3", "C11.4")
+    # C11.5: what the engine itself leaves for the next open
+    from .persistord import check_atomic_replace
+    check_atomic_replace(ctx, "C11.5", "C11.5", facts, "index::WalIndex::persist", need_dir_sync=False)
+    check_atomic_replace(ctx, "C11.5", "C11.5", facts, "topic_clean::CleanMarkerStore::persist_map", need_dir_sync=False)
     ctx.assume("NOT decided: hangs, semantic mis-association of valid-looking foreign entries")
     ctx.assume("PF covers the linux cfg in the dev profile (overflow checks and debug assertions compiled in): a superset of the panic sites of a release build")
     return {
